@@ -166,6 +166,7 @@ def check_property(pid, tier, seed, do_playback=True):
                 "unwindset": r.loops,
                 "playback_test": pb.get("test_src", ""),
                 "native_reproduced": pb.get("reproduced"),
+                "replay_note": pb.get("why", ""),
                 "native_output": pb.get("native_output", []),
                 "tree_fingerprint": repo_fingerprint(),
             }
